@@ -721,8 +721,11 @@ class ExcludeRegionState(object):  # pylint: disable=too-many-instance-attribute
             returnCommands = self.exitExcludedRegion(cmd)
         elif (deltaE != 0):
             # Recover any retraction recorded from the excluded region before the next
-            # extrusion occurs
+            # extrusion occurs.  The recovery must be generated relative to the extruder position
+            # prior to this move, otherwise the move itself would no longer extrude anything.
+            eAxis.current = priorE
             returnCommands = self.recoverRetractionIfNeeded(cmd, False)
+            eAxis.current = extruderPosition
         else:
             returnCommands = [cmd]
 
